@@ -19,9 +19,10 @@ import tempfile
 from pathlib import Path
 
 from lib import core
-from lib.core import zlit, coq_list, coq_string
+from lib.core import zlit, zlist, coq_list, coq_string
 
-PREAMBLE = ("From Typhon Require Import Base.Calendar Model.C02_template Model.C16_closest.\n"
+PREAMBLE = ("From Typhon Require Import Base.Calendar Model.C02_template Model.C16_closest Model.C16_tree.\n"
+            "From Typhon Require Model.C01_find.\n"
             "Open Scope string_scope.\n")
 TRUSTED = [
     "correspondence harness tools/props/c16.py (template grammar, own file-name renderer, population and query "
@@ -94,6 +95,35 @@ def own_period(kind):
         return None
     ps = [PERIOD[f] for f in dir_fields(kind)]
     return min(ps) if ps else 366 * DAY
+
+
+FCTOR = {"year": ["F.FYear"], "year2": ["F.FYear"], "month": ["F.FMonth"], "day": ["F.FDay"],
+         "doy": ["F.FMonth", "F.FDay"], "hour": ["F.FHour"], "minute": ["F.FMinute"], "second": ["F.FSecond"]}
+
+
+def own_layout(kind):
+    """the harness's own idea of the directory layout in the vocabulary of C01's model: one entry per directory level
+    below the base directory (which ends where the first placeholder begins): None = a literal level, else the
+    standardised temporal placeholders of the level"""
+    lay, started = [], False
+    for ch in DIRS[kind]:
+        if all(t[0] == "lit" for t in ch):
+            if started:
+                lay.append(None)
+            continue
+        started = True
+        lay.append([c for t in ch if t[0] == "t" and not t[1] for c in FCTOR[t[2]]])
+    return lay
+
+
+def coq_layout(lay):
+    return coq_list(["F.CLit" if ch is None else f"F.CPat {coq_list(ch)}" for ch in lay])
+
+
+def walk_order(files):
+    """the order in which FileSet.find(sort=False) yields the files: directories level by level and the files of a
+    directory in the sorted order of the file system's glob (names of one level are never prefixes of each other)"""
+    return sorted(range(len(files)), key=lambda i: tuple(files[i]["name"].split("/")))
 
 
 def merge_lits(tokens):
@@ -188,28 +218,38 @@ def gen_centre(rng, res):
     return u // RES[res] * RES[res]
 
 
-def gen_tree(rng, k):
+def gen_tree(rng, k, force=None):
+    """force (directed cases only): {"kind", "res", "ends", "sat"} override the drawn choices AFTER they are drawn, so
+    that the general stream (force=None) is exactly what it was"""
+    force = force or {}
     kind = rng.choice(DIR_WEIGHTS)
+    kind = force.get("kind", kind)
     dfields = dir_fields(kind)
     dir_rank = max([RANK.get({"year2": "year", "doy": "day"}.get(f, f)) for f in dfields], default=0)
     res = rng.choice([r for r in ("day", "hour", "hour", "minute", "second") if RANK[r] >= dir_rank])
+    res = force.get("res", res)
     r = RES[res]
     P = own_period(kind)
     sub = ["hour", "minute", "second"][:RANK[res] - 2]
     has_full_date_dir = {"year", "month", "day"} <= set(dfields) or {"year", "doy"} <= set(dfields)
     style = rng.choice(["full", "full", "doy", "y2", "rest"])
+    if force:
+        style = "full"
     if style == "rest" and not (has_full_date_dir and sub):
         style = "full"
     if "year2" in dfields:
         style = "y2"
     date = {"full": ["year", "month", "day"], "doy": ["year", "doy"], "y2": ["year2", "month", "day"], "rest": []}[style]
     ends = style != "rest" and rng.random() < 0.4
+    ends = force.get("ends", ends)
     sat_in_dir = any(t[0] == "u" for ch in DIRS[kind] for t in ch)
     sat_in_name = (not sat_in_dir) and rng.random() < 0.4
+    if "sat" in force:
+        sat_in_name = force["sat"] and not sat_in_dir
     has_sat = sat_in_dir or sat_in_name
     fixed_sat = rng.choice(SATS[:3]) if has_sat and rng.random() < 0.15 else None
     coverage = None
-    if not ends and rng.random() < 0.55:
+    if not ends and rng.random() < 0.55 and not force:
         cap = P if P is not None else 400 * DAY
         coverage = rng.choice([u for u in (r, 2 * r, 6 * r, 24 * r, 30 * r, cap) if u <= cap])
     # tokens
@@ -320,6 +360,68 @@ def nested_tree(rng, k):
     return tree
 
 
+EDGE_TEMPLATES = [   # (layout, resolution of the names, a time B that starts a directory of the finest level)
+    ("Y/M/D", "hour", (2018, 3, 2, 0, 0)), ("Y/M/D", "minute", (2020, 3, 1, 0, 0)), ("Y/M/D/H", "minute", (2019, 1, 1, 0, 0)),
+    ("Y/J", "hour", (2019, 1, 1, 0, 0)), ("Y/M", "hour", (2018, 3, 1, 0, 0)), ("y/M", "hour", (2024, 3, 1, 0, 0)),
+    ("Y", "day", (2018, 1, 1, 0, 0)), ("Y-M-D", "hour", (2017, 1, 1, 0, 0)), ("lit/Y/mM", "hour", (2018, 2, 1, 0, 0)),
+]
+
+
+def edge_trees(rng, k0):
+    """Directed trees every run contains whatever the seed (C16 extension, window edge cases; offsets in units of the name
+    resolution r from a directory boundary B; K = P / r):
+      boundary   t exactly on the directory boundary, nearest file in the PREVIOUS directory; t on the last / first
+                 instant of a file
+      tie        two files equally far on both sides of the boundary (any of them is allowed; the model names the first
+                 in walk order)
+      neighbour  a file of the previous directory that covers t (files may outlast their directory)
+      far        fixed-length levels: the only file lies two directories after / before the directory of t: absence;
+                 month levels: the window is t -+ 31 days whatever the month, a file two month-directories later is
+                 found from 31 Jan 23:00 and not from 28 Jan 23:00
+      outlasting a file two directories before t that ends exactly at t - P (find's look-back beyond the window)
+      edges      a file ending exactly at t - P is found, one unit earlier it is not; a file starting exactly at t + P
+                 is not found, one unit earlier it is
+    Every query carries the answer the rule gives (`expect`), checked against the model before the implementation is
+    judged by the certified checker."""
+    out = []
+    for kind, res, bt in EDGE_TEMPLATES:
+        base = gen_tree(rng, k0, force={"kind": kind, "res": res, "ends": True, "sat": False})
+        r, P = RES[res], base["P"]
+        K = P // r
+        B = us_of(dt.datetime(*bt))
+        scen = [
+            ("boundary", [(-3, -1), (2, 3)], [(0, 0), (-1, 0), (2, 1), (-2, 0), (1, 1)]),
+            ("tie", [(-3, -2), (2, 3)], [(0, 0), (-1, 0), (1, 1)]),
+            ("neighbour", [(-2, 2), (3, 4)], [(0, 0), (1, 0), (2, 0), (3, 1), (-2, 0)]),
+            ("edges", [(5, 7)], [(7 + K, 0), (7 + K + 1, None), (5 - K, None), (5 - K + 1, 0)]),
+            # a file of the directory BEFORE the one t - P falls into that outlasts its directory and ends exactly at t - P
+            ("outlasting", [(-K - 2, -K + 1)], [(1, 0), (2, None), (0, 0), (-K, 0)]),
+        ]
+        if P in (DAY, HOUR):
+            scen += [("far-after", [(2 * K + 1, 2 * K + 2)], [(1, None), (0, None), (K - 1, None), (K + 2, 0)]),
+                     ("far-before", [(-2 * K - 2, -2 * K - 1)], [(0, None), (K - 1, None), (-K - 1, 0), (-K, None)])]
+        if P == 31 * DAY and bt[1] == 3 and r == HOUR:
+            feb = (B - us_of(dt.datetime(bt[0], 2, 1))) // r               # hours of February
+            scen += [("far-month", [(0, 1)], [(-feb - 1, 0), (-feb - 3 * 24 - 1, None), (-K, None), (-K + 1, 0)])]
+        for name, spans, asks in scen:
+            tree = dict(base)
+            tree["id"] = k0 + len(out)
+            files, names = [], set()
+            for a, b in spans:
+                t0, t1 = B + a * r, B + b * r
+                n = own_render(tree["tokens"], of_us(t0), of_us(t1), None)
+                names.add(n)
+                files.append({"name": n, "t0": t0, "t1": t1, "sat": None})
+            if len(names) != len(files):
+                continue
+            tree["files"], tree["vanished"], tree["centre"] = files, [], B
+            tree["queries"] = [{"label": "edge-" + name, "t": B + off * r, "filters": None, "xnames": [], "xtimes": [],
+                                "as_str": False, "expect": "NONE" if want is None else files[want]["name"]}
+                               for off, want in asks]
+            out.append(tree)
+    return out
+
+
 def gen_filters(rng, tree):
     if not tree["has_sat"] or rng.random() < 0.5:
         return None
@@ -414,6 +516,37 @@ class _Stub:
         return file_info
 
 
+# what fileset[...] is indexed with (the dispatch of __getitem__: Model/C16_tree.getitem): a datetime, a subclass of
+# datetime (pandas.Timestamp), a string, and tuples / lists (timestamp, filters) with filters None or a dict
+FORMS_PLAIN = ["plain", "plain", "timestamp", "tuple-none", "list-none"]
+FORMS_FILTERS = ["tuple", "list", "tuple", "timestamp-tuple"]
+# Not in the rotation, on purpose: numpy.datetime64 and datetime.date.  find_closest converts them through to_datetime,
+# fileset[...] falls off the end of __getitem__ for them and returns None; both docstrings promise "datetime object or
+# string" only, so these types are outside the documented interface and outside the property (judged so by the
+# maintainer of this verification; the observation is recorded in build/reports/C16_ext.md).
+
+
+def item_form(tree, qi, flt):
+    n = int(tree.get("id", 0)) + qi
+    forms = FORMS_PLAIN if flt is None else FORMS_FILTERS
+    return forms[n % len(forms)]
+
+
+def make_item(form, targ, flt):
+    if form.startswith("timestamp") and not isinstance(targ, str):
+        import pandas as pd
+        targ = pd.Timestamp(targ)                   # a datetime subclass (finding F-C16-2: TypeError in a gap, fixed)
+    if form in ("plain", "timestamp"):
+        return targ
+    if form == "tuple-none":
+        return (targ, None)
+    if form == "list-none":
+        return [targ, None]
+    if form == "list":
+        return [targ, flt]
+    return (targ, flt)
+
+
 def _canon(root, call):
     from typhon.files.fileset import NoFilesError
     try:
@@ -505,8 +638,9 @@ def run_impl(tree):
                         except Exception:  # noqa
                             pass
             a = _canon(root, lambda: fs.find_closest(targ, filters=flt))
-            b = _canon(root, (lambda: fs2[targ]) if flt is None else (lambda: fs2[targ, flt]))
-            out.append({"find_closest": a, "getitem": b})
+            form = q.get("form") or item_form(tree, len(out), flt)
+            b = _canon(root, lambda: fs2[make_item(form, targ, flt)])
+            out.append({"find_closest": a, "getitem": b, "form": form})
         return out, parsed
     finally:
         shutil.rmtree(root, ignore_errors=True)
@@ -538,6 +672,37 @@ def coq_files(tree):
     return coq_list(items)
 
 
+def coq_zfilters(flt):
+    """white and black lists in C01's vocabulary: placeholder 0 = sat, values = positions in SATS"""
+    white, black = [], []
+    for k, v in (flt or {}).items():
+        vs = list(v) if isinstance(v, (list, tuple)) else [v]
+        item = f"(0, {coq_list([zlit(SATS.index(x)) for x in vs])})"
+        (black if k.startswith("!") else white).append(item)
+    return f"({coq_list(white)}, {coq_list(black)})"
+
+
+def tree_side_expr(tree):
+    """the same tree for the composed model (Model/C16_tree.v): the files in walk order as files of C01's model
+    (identity = position in the harness's listing, directory time = start), the flat listing in the same order, and
+    every query with its filters in C01's vocabulary and the identities of the files excluded by name"""
+    files = tree["files"]
+    order = walk_order(files)
+    ffiles, flat = [], []
+    for i in order:
+        f = files[i]
+        attrs = f"[(0, {zlit(SATS.index(f['sat']))})]" if f["sat"] is not None else "[]"
+        ffiles.append(f"F.mkfile {zlit(i)} {zlit(f['t0'])} {zlit(f['t1'])} {zlit(f['t0'])} {attrs} false")
+        sattrs = coq_list([f"({cs('sat')}, {cs(f['sat'])})"]) if f["sat"] is not None else "[]"
+        flat.append(f"File {cs(f['name'])} {zlit(f['t0'])} {zlit(f['t1'])} {sattrs}")
+    qs = []
+    for q in tree["queries"]:
+        xs = [i for i, f in enumerate(files) if f["name"] in q["xnames"]]
+        qs.append(f"({coq_query(q)}, {coq_zfilters(q['filters'])}, {zlist(xs)}, {zlit(q['t'])})")
+    return (f"run_tree {coq_tokens(tree['tokens'], tree['fixed_sat'])} {coq_layout(own_layout(tree['kind']))} "
+            f"{coq_list(ffiles)} {coq_list(flat)} {coq_list(qs)}")
+
+
 def obs_index(tree, canon):
     """NONE -> -1; a path -> its index in the listing (len(files) when it is not a file of the fileset)"""
     if canon == "NONE":
@@ -552,7 +717,8 @@ def tree_expr(tree, observed):
     """observed: list of (query index, mode, canon) -- only answers that are None or a path"""
     qs = coq_list([f"({coq_query(tree['queries'][qi])}, {zlit(tree['queries'][qi]['t'])}, {zlit(obs_index(tree, c))})"
                    for qi, _, c in observed])
-    return f"run_case {coq_tokens(tree['tokens'], tree['fixed_sat'])} {coq_files(tree)} {qs}"
+    return (f"(run_case {coq_tokens(tree['tokens'], tree['fixed_sat'])} {coq_files(tree)} {qs}, "
+            f"{tree_side_expr(tree)})")
 
 
 # ----------------------------------------------------------------------------- check
@@ -572,15 +738,16 @@ def evaluate(ctx, trees, tag="cases"):
                 observed.append((qi, mode, c))
         # errors are judged with the answer "a file outside the listing" replaced by a marker after evaluation
         exprs.append(tree_expr(tree, [(qi, m, c if not c.startswith("ERR:") else "NONE") for qi, m, c in observed]))
-        plans.append((tree, observed, parsed))
+        plans.append((tree, observed, parsed, impl))
     vals, log = core.coq_eval(ctx.work / "cases", tag, PREAMBLE, exprs, shard=60)
     if log:
         ctx.log(log[-2000:])
-    for (tree, observed, parsed), v in zip(plans, vals):
+    for (tree, observed, parsed, impl), v in zip(plans, vals):
         if v is None:
             records.append({"tree": tree, "coq": None})
             continue
-        pz, rows = v
+        pz, rows, (thead, trows) = v
+        order = walk_order(tree["files"])
         own_p = tree["P"] if tree["P"] is not None else -1
         times_ok = parsed is None or all(isinstance(p, list) and p == [f["t0"], f["t1"]]
                                          for p, f in zip(parsed, tree["files"]))
@@ -589,7 +756,8 @@ def evaluate(ctx, trees, tag="cases"):
             records.append({"tree": tree, "qi": qi, "mode": mode, "impl": c, "hyp": bool(hyp), "ok": bool(ok),
                             "algo": bool(algo), "diag": diag, "model": model, "model_ok": bool(model_ok),
                             "asis": asis, "exact": exact, "ncand": ncand, "ncov": ncov, "nacc": nacc,
-                            "period_ok": pz == own_p, "period": pz, "times_ok": times_ok, "parsed": parsed, "coq": True})
+                            "period_ok": pz == own_p, "period": pz, "times_ok": times_ok, "parsed": parsed, "coq": True,
+                            "form": impl[qi].get("form"), "thead": thead, "tq": trows[qi], "order": order})
     return records
 
 
@@ -610,7 +778,8 @@ def judge(ctx, rec, report=True):
     if rec.get("coq") is None:
         return ("correspondence", "coq-eval", "Coq evaluation of the case failed")
     q = tree["queries"][rec["qi"]]
-    where = (f"{rec['mode']}({of_us(q['t'])}, filters={q['filters']}) on {template_string(tree['tokens'])} with "
+    how = f"fileset[{rec.get('form')}]" if rec["mode"] == "getitem" else "find_closest"
+    where = (f"{how}({of_us(q['t'])}, filters={q['filters']}) on {template_string(tree['tokens'])} with "
              f"{len(tree['files'])} files, exclude names {q['xnames']} periods {[(str(of_us(a)), str(of_us(b))) for a, b in q['xtimes']]}")
     if not rec["model_ok"] and rec["hyp"]:
         return ("proof", "model-vs-spec", "the model's own answer is rejected by the checker although the hypotheses "
@@ -618,6 +787,26 @@ def judge(ctx, rec, report=True):
     if not rec["period_ok"]:
         return ("correspondence", "period", f"the model's sub-directory period {rec['period']} differs from the "
                 f"harness's own {tree['P']}: " + where)
+    # ---- the composed model (Model/C16_tree.v): layout of the template, C01's walk, bridge to the flat model
+    lay_eq, lay_fields, c01_hyps, lay_period = rec["thead"]
+    if not (lay_eq and lay_fields and lay_period):
+        return ("correspondence", "layout", f"the layout the model derives from the template (layout_of) differs from the "
+                f"harness's own {own_layout(tree['kind'])}, or its placeholders / period do not match the template's "
+                f"(equal {lay_eq}, fields {lay_fields}, period {lay_period}): " + where)
+    win_ok, t_search, f_search, same_search, t_ncand, t_visited, t_agrees, same_closest, walk_choice = rec["tq"]
+    if c01_hyps and win_ok and t_agrees and rec["hyp"]:
+        if not (same_search and same_closest):
+            return ("proof", "composed-vs-flat", f"the composed model (C01's directory walk, answer {t_search}) and the flat "
+                    f"model (answer {f_search}) differ although the hypotheses of composed_is_flat_model hold: " + where)
+        if t_ncand != rec["ncand"]:
+            return ("proof", "candidates-vs-find", f"{t_ncand} candidates on the tree, {rec['ncand']} in the listing although "
+                    f"the hypotheses of composed_is_flat_model hold: " + where)
+    exp = q.get("expect")
+    if exp is not None:
+        chosen = "NONE" if walk_choice < 0 else tree["files"][rec["order"][walk_choice]]["name"]
+        if chosen != exp:
+            return ("correspondence", "directed-expectation", f"a directed case expects {exp}, the model answers {chosen}: "
+                    + where)
     in_hyp = rec["hyp"] and rec["times_ok"]
     if rec["impl"].startswith("ERR:"):
         return ("failing-input" if in_hyp else "correspondence", "closest-error",
@@ -723,15 +912,43 @@ def run(ctx):
         t = nested_tree(drng, nt + j)
         if t is not None:
             trees.append(t)
+    trees += edge_trees(drng, nt + 100)
     singles = [gen_single(ctx.rng, k) for k in range(ctx.n(12, 120))]
     records = evaluate(ctx, trees)
     nontrivial, first, classes, seen_sig = set(), {}, {}, {}
     labels = {}
+    comp = {"queries": 0, "inside_the_hypotheses_of_composed_is_flat_model": 0, "directory_walk_pruned_some_file": 0,
+            "outside_C01_hypotheses": 0, "window_leaves_datetime_or_lookback": 0}
+    choice = {"implementation_is_the_models_choice": 0, "another_allowed_file": 0, "several_allowed": 0}
+    forms, seen_q = {}, set()
     for rec in records:
         ctx.cov["evaluations"] += 1
         j = judge(ctx, rec)
         if rec.get("coq"):
             tree, q = rec["tree"], rec["tree"]["queries"][rec["qi"]]
+            if (id(tree), rec["qi"]) not in seen_q:
+                seen_q.add((id(tree), rec["qi"]))
+                win_ok, _, _, _, t_ncand, t_visited, t_agrees, _, walk_choice = rec["tq"]
+                comp["queries"] += 1
+                if not rec["thead"][2]:
+                    comp["outside_C01_hypotheses"] += 1
+                elif not win_ok:
+                    comp["window_leaves_datetime_or_lookback"] += 1
+                elif t_agrees and rec["hyp"]:
+                    comp["inside_the_hypotheses_of_composed_is_flat_model"] += 1
+                    if t_visited < len(tree["files"]):
+                        comp["directory_walk_pruned_some_file"] += 1
+            if rec["mode"] == "getitem" or rec.get("form"):
+                forms[rec.get("form")] = forms.get(rec.get("form"), 0) + 1
+            if j is None and rec["hyp"] and not rec["impl"].startswith("ERR:"):
+                # (3) any allowed file passes; WHICH one the code returns is the first in find order (search_first_in_order):
+                # the agreement of the implementation's choice with the model's is measured, a difference is not a failure
+                walk_choice = rec["tq"][8]
+                mine = -1 if walk_choice < 0 else rec["order"][walk_choice]
+                if rec["nacc"] > 1:
+                    choice["several_allowed"] += 1
+                choice["implementation_is_the_models_choice" if mine == obs_index(tree, rec["impl"])
+                       else "another_allowed_file"] += 1
             labels[q["label"]] = labels.get(q["label"], 0) + 1
             n = len(tree["files"])
             cls = ("out-of-hypothesis" if not rec["hyp"] else
@@ -778,6 +995,8 @@ def run(ctx):
         "literal_user_placeholder": sum(1 for t in trees if t["fixed_sat"]),
         "empty_filesets": sum(1 for t in trees if not t["files"]),
         "query_kinds": labels, "decision_classes": classes,
+        "composition_with_C01": comp, "choice_among_allowed_files": choice, "item_forms_of_getitem": forms,
+        "directed_edge_trees": sum(1 for t in trees for q in t["queries"][:1] if q["label"].startswith("edge-")),
         "with_filters": sum(1 for t in trees for q in t["queries"] if q["filters"] is not None),
         "with_exclusions": sum(1 for t in trees for q in t["queries"] if q["xnames"] or q["xtimes"]),
     }
